@@ -18,6 +18,7 @@ import (
 	"seehuhn.de/go/sfnt/opentype/gtab"
 	"seehuhn.de/go/sfnt/opentype/gtab/builder"
 	"seehuhn.de/go/sfnt/opentype/gtab/testcases"
+	"seehuhn.de/go/sfnt/opentype/markarray"
 
 	"verif/c19in"
 	"verif/dump"
@@ -239,6 +240,18 @@ var c19GposMenu = append(append([]gen.Simple{}, gen.GposSimple...),
 	gen.Simple{Name: "GPOS1.2 all value fields", Type: 1, Sub: func() []gtab.Subtable {
 		return []gtab.Subtable{&gtab.Gpos1_2{Cov: coverage.Table{gen.GA: 0, gen.GB: 1, gen.GY: 2}, Adjust: []*gtab.GposValueRecord{
 			{XPlacement: 1, YPlacement: -2, XAdvance: 3}, {YPlacement: 9}, {}}}}
+	}},
+	gen.Simple{Name: "GPOS1.2 extreme values", Type: 1, Sub: func() []gtab.Subtable {
+		return []gtab.Subtable{&gtab.Gpos1_2{Cov: coverage.Table{gen.GA: 0, gen.GB: 1}, Adjust: []*gtab.GposValueRecord{
+			{XPlacement: -32768, YPlacement: 32767, XAdvance: -32768}, {XPlacement: 32767, YPlacement: -32768, XAdvance: 32767}}}}
+	}},
+	gen.Simple{Name: "GPOS3 cursive extreme anchors", Type: 3, Sub: func() []gtab.Subtable {
+		return []gtab.Subtable{&gtab.Gpos3_1{Cov: coverage.Table{gen.GA: 0}, Records: []gtab.EntryExitRecord{{Entry: anchor.Table{X: -32768, Y: 32767}, Exit: anchor.Table{X: 32767, Y: -32768}}}}}
+	}},
+	gen.Simple{Name: "GPOS4.1 extreme anchors", Type: 4, Sub: func() []gtab.Subtable {
+		return []gtab.Subtable{&gtab.Gpos4_1{MarkCov: coverage.Table{gen.GM: 0}, BaseCov: coverage.Table{gen.GA: 0},
+			MarkArray: []markarray.Record{{Class: 0, Table: anchor.Table{X: -32768, Y: -32768}}},
+			BaseArray: [][]anchor.Table{{{X: 32767, Y: -32768}}}}}
 	}},
 	gen.Simple{Name: "GPOS2.1 halves", Type: 2, Sub: func() []gtab.Subtable {
 		return []gtab.Subtable{gtab.Gpos2_1{
@@ -588,6 +601,21 @@ func init() {
 		}
 		toks := c19in.TokenStrings(maxLen)
 		c19Schedules(r, "C19.schedules-tokens", fmt.Sprintf("all %d token strings of length <= %d over a %d-token alphabet (keywords, flags, glyph names, quoted strings incl. unmapped and unterminated ones, punctuation, integers, newline, illegal characters, comments) under all schedules with <= 2 deviations", len(toks), maxLen, len(c19in.Tokens)), c19Font(true), toks, 2, 0.8)
+		// quoted strings longer than any buffer a decoder goroutine might use, with an error at the start,
+		// in the middle and at the end (Z is not in the character map)
+		{
+			as := func(n int) string { return strings.Repeat("A", n) }
+			long := []string{
+				`GSUB4: "` + as(70) + `" -> L`,
+				`GSUB4: "Z` + as(100) + `" -> L`,
+				`GSUB4: "` + as(40) + `Z` + as(80) + `" -> L`,
+				`GSUB4: "` + as(100) + `Z" -> L`,
+				`GSUB4: "` + as(100),
+				`GSUB1: "Z` + as(300) + `" -> "` + as(301) + `"`,
+				`GSUB5: "` + as(65) + `" -> 1@0 || "Z` + as(65) + `" -> 1@0` + "\nGSUB1: A -> B",
+			}
+			c19Schedules(r, "C19.schedules-long-strings", fmt.Sprintf("%d descriptions with quoted strings of 65..300 characters, valid or with an unmapped character at the start / in the middle / at the end, or unterminated, under all schedules with <= 1 deviation: lookups or an error with a line number, no panic, no deadlock, no goroutine left parked", len(long)), c19Font(true), long, 1, 0.2)
+		}
 		// fonts Parse cannot work with: no character map at all, and only a subtable GetBest does not select
 		{
 			nocmap := c19Font(true)
